@@ -365,6 +365,15 @@ func (s *Scanner) isInsideMultiLineAnnotation() bool {
 	return false
 }
 
+func (s *Scanner) isInsideInlineAnnotation() bool {
+	for i := s.stack.Len() - 1; i >= 0; i-- {
+		if s.stack.Get(i).Type() == lexeme.InlineAnnotationBegin {
+			return true
+		}
+	}
+	return false
+}
+
 func (s *Scanner) found(lexType lexeme.LexEventType) {
 	s.finds = append(s.finds, lexType)
 }
@@ -1374,8 +1383,9 @@ func stateMultiLineCommentStart(s *Scanner, c byte) state {
 	if c != '#' {
 		panic(s.newDocumentErrorAtCharacter("after second #"))
 	}
+	// The third # belongs to the opener: it isn't the first # of the end.
 	s.step = stateMultiLineComment
-	return s.step(s, c)
+	return scanContinue
 }
 
 func stateInlineComment(s *Scanner, c byte) state {
@@ -1394,6 +1404,11 @@ func stateMultiLineComment(s *Scanner, c byte) state {
 			s.index++ // skip third #
 			s.step = s.returnToStep.Pop()
 			s.unfinishedComment = false
+			if s.isInsideInlineAnnotation() {
+				// The comment stands inside the rules of an inline annotation,
+				// which go on behind it.
+				s.annotation = annotationInline
+			}
 		}
 	}
 	return scanContinue
